@@ -173,6 +173,8 @@ impl Case {
                 world = Some(r.trim().to_string());
             } else if let Some(r) = l.strip_prefix("ctor ") {
                 ctor = r.trim().parse().map_err(|e| format!("ctor: {}", e))?;
+            } else if l.starts_with("inject ") {
+                // fault-injection directive of C10 replays: parsed by c10::parse_inject
             } else if let Some(r) = l.strip_prefix("caps") {
                 caps = r.split_whitespace().map(|t| t.parse::<u32>().map_err(|e| format!("caps: {}", e))).collect::<Result<_, _>>()?;
             } else {
